@@ -78,9 +78,15 @@ func genFallibleMotif(r *rng) *ccase {
 		// (a) annotated fallible injector on a per-invocation input
 		in := ts[0]
 		if r.chance(1, 2) {
-			in = tcOf([]int{pSlice, pMap}[r.intn(2)]) // not usable as a map key
+			in = tcOf([]int{pSlice, pMap, pOpaque, pOpaque}[r.intn(4)]) // not usable as a map key
 		}
-		c.invIns = []int{in}
+		if r.chance(1, 3) {
+			// the input is static: a literal listed first
+			pid++
+			c.provs = append(c.provs, &cprovider{pid: pid, shape: 1, lit: in})
+		} else {
+			c.invIns = []int{in}
+		}
 		if r.chance(1, 2) {
 			w := add(&cprovider{shape: 3, innerOuts: []int{errT}, outs: []int{errT}, passthru: r.chance(1, 2)})
 			if r.chance(1, 3) {
@@ -103,17 +109,23 @@ func genFallibleMotif(r *rng) *ccase {
 		case 6:
 			f.annots |= aMustCache
 		}
+		if r.chance(1, 4) {
+			f.annots |= aReflective // supplied through the Reflective interface: same classification, same caching rules
+		}
 		plain := false
 		if r.chance(1, 3) {
 			// a non-fallible sibling with the same annotations: nobody returns error then
 			f.outs = []int{ts[1]}
 			f.failmask = 0
 			plain = true
-			if len(c.provs) == 2 {
-				c.provs = c.provs[1:] // drop the wrapper that receives error
-				f.pid = 1
-				pid = 1
+			// drop the wrapper that receives error, if any
+			var kept []*cprovider
+			for _, q := range c.provs {
+				if q.shape != 3 {
+					kept = append(kept, q)
+				}
 			}
+			c.provs = kept
 		}
 		add(&cprovider{shape: 2, ins: []int{ts[1]}, outs: []int{ts[2]}})
 		fin := add(&cprovider{shape: 2, ins: []int{ts[2]}, outs: []int{ts[3]}})
